@@ -92,6 +92,8 @@ def main():
                  "adts": len(ctx.facts.adts), "crate": ctx.facts.crate, "build": ctx.facts.opts}
     if ctx.facts.aliases:
         run.note("private items recognised as renamed (same module, signature / value as a reference item that is gone): %s" % sorted(ctx.facts.aliases.items()))
+    if getattr(ctx.facts, "unwrapped_newtypes", None):
+        run.note("private single-field wrappers the reference does not have, written out (type = the field's type): %s" % ctx.facts.unwrapped_newtypes)
     if getattr(ctx, "folded", None):
         run.note("calls of the extracted core of a reference function read as calls of that function (arguments and guards checked): %s" % sorted(set(ctx.folded)))
     if ctx.inlined:
